@@ -1,0 +1,120 @@
+//go:build verif
+
+/*
+ Licensed to the Apache Software Foundation (ASF) under one
+ or more contributor license agreements.  See the NOTICE file
+ distributed with this work for additional information
+ regarding copyright ownership.  The ASF licenses this file
+ to you under the Apache License, Version 2.0 (the
+ "License"); you may not use this file except in compliance
+ with the License.  You may obtain a copy of the License at
+
+     http://www.apache.org/licenses/LICENSE-2.0
+
+ Unless required by applicable law or agreed to in writing, software
+ distributed under the License is distributed on an "AS IS" BASIS,
+ WITHOUT WARRANTIES OR CONDITIONS OF ANY KIND, either express or implied.
+ See the License for the specific language governing permissions and
+ limitations under the License.
+*/
+
+package locking
+
+import (
+	"runtime"
+	"sync"
+	"sync/atomic"
+	"time"
+
+	godeadlock "github.com/sasha-s/go-deadlock"
+)
+
+// Verification hooks, only compiled with the "verif" build tag.
+// Seeded schedule perturbation at lock acquisition, and capture of go-deadlock reports.
+
+var (
+	verifYieldPermille atomic.Int32
+	verifYieldState    atomic.Uint64
+	verifYieldCount    atomic.Int64
+	verifReportsLock   sync.Mutex
+	verifReports       []string
+)
+
+// VerifSetYield sets the seed and the probability (in 1/1000) of yielding before a lock acquisition.
+func VerifSetYield(seed int64, permille int32) {
+	verifYieldState.Store(uint64(seed)*2654435761 + 1)
+	verifYieldPermille.Store(permille)
+}
+
+// VerifYields returns the number of yields injected so far.
+func VerifYields() int64 {
+	return verifYieldCount.Load()
+}
+
+func verifMaybeYield() {
+	p := verifYieldPermille.Load()
+	if p <= 0 {
+		return
+	}
+	// splitmix64 step on a shared atomic state: which goroutine gets which value depends on the schedule,
+	// which is fine, the goal is perturbation per seed not replay
+	x := verifYieldState.Add(0x9e3779b97f4a7c15)
+	x = (x ^ (x >> 30)) * 0xbf58476d1ce4e5b9
+	x = (x ^ (x >> 27)) * 0x94d049bb133111eb
+	x ^= x >> 31
+	if int32(x%1000) >= p {
+		return
+	}
+	verifYieldCount.Add(1)
+	if (x>>20)%8 == 0 {
+		time.Sleep(time.Duration((x>>24)%200) * time.Microsecond)
+	} else {
+		runtime.Gosched()
+	}
+}
+
+// Lock yields with the configured probability and then locks.
+func (m *Mutex) Lock() {
+	verifMaybeYield()
+	m.Mutex.Lock()
+}
+
+// Lock yields with the configured probability and then locks.
+func (m *RWMutex) Lock() {
+	verifMaybeYield()
+	m.RWMutex.Lock()
+}
+
+// RLock yields with the configured probability and then read locks.
+func (m *RWMutex) RLock() {
+	verifMaybeYield()
+	m.RWMutex.RLock()
+}
+
+// VerifCaptureDeadlocks replaces the go-deadlock callback by one that keeps the report text.
+// Detection must have been enabled through the environment.
+func VerifCaptureDeadlocks() {
+	godeadlock.Opts.OnPotentialDeadlock = func() {
+		deadlockDetected.Store(true)
+		buf, ok := godeadlock.Opts.LogBuf.(*errorBuf)
+		if !ok {
+			return
+		}
+		buf.Lock()
+		data := buf.data
+		buf.data = ""
+		buf.Unlock()
+		verifReportsLock.Lock()
+		verifReports = append(verifReports, data)
+		verifReportsLock.Unlock()
+	}
+}
+
+// VerifDeadlockReports returns the captured reports.
+func VerifDeadlockReports() []string {
+	verifReportsLock.Lock()
+	defer verifReportsLock.Unlock()
+	out := make([]string, len(verifReports))
+	copy(out, verifReports)
+	return out
+}
